@@ -12,7 +12,7 @@ def common_entries(v, side):
         ('unknown-id', 'L', lambda e: is_not_on_book(e['fact'], side, M(v, 'id'))),
         ('empty-id', 'D(validate: a UUID is not empty)', lambda e: e['fact'] == ('val', ISEMPTY(M(v, 'id')), True)),
         ('config-load', 'I', lambda e: is_storage_load_err(e['fact'], 'contract_info')),
-        ('storage-save', 'I', lambda e: is_save_err(e['fact'])),
+        ('storage-save', 'I', lambda e: is_save_err(e['fact']) or (is_storage_load_err(e['fact']) and e['fact'][1][3] == 'may_load')),   # Map::update re-reads the entry before writing
     ]
     return T
 
